@@ -47,6 +47,24 @@ func decisionView(e *testEnv, v *respView) string {
 	return fmt.Sprintf("%d|%s|%s|%s|%s", v.Status, loc, strings.Join(cks, ","), up, body)
 }
 
+func hasAnySessionCookie(b *browser, name string) bool {
+	for n := range b.jar {
+		if isSessionCookieNameH(name, n) {
+			return true
+		}
+	}
+	return false
+}
+
+func jarNamesOf(b *browser) []string {
+	var out []string
+	for n := range b.jar {
+		out = append(out, n)
+	}
+	sort.Strings(out)
+	return out
+}
+
 // ticketIDOf: the harness's own decode of a Redis ticket cookie value (no signature check)
 func ticketIDOf(cookieValue string) string {
 	parts := strings.Split(cookieValue, "|")
@@ -360,6 +378,50 @@ func init() {
 							}
 						}
 					}
+					// sign-out request that itself triggers a refresh which changes the cookie layout (grow / shrink / same)
+					if path == "" && dom == nil {
+						for _, layout := range []string{"grow", "shrink", "same"} {
+							pad := fmt.Sprintf("%x", c.rng.bytes(3000))
+							e.idp.mu.Lock()
+							e.idp.initialTokenPad, e.idp.accessTokenPad = "", ""
+							if layout == "shrink" {
+								e.idp.initialTokenPad = pad
+							}
+							e.idp.mu.Unlock()
+							b := newBrowser()
+							if lr := e.login(b, u, "/app/home"); !lr.OK {
+								continue
+							}
+							time.Sleep(2100 * time.Millisecond) // older than the 1 s refresh period
+							e.idp.mu.Lock()
+							e.idp.initialTokenPad = ""
+							if layout == "grow" {
+								e.idp.accessTokenPad = pad
+							}
+							e.idp.mu.Unlock()
+							before := len(b.jar)
+							v, real := e.serveCase(reqSpec{Target: e.opts.ProxyPrefix + "/sign_out", Cookie: b.cookieHeader()}, nil, "signout:refresh-"+layout)
+							e.idp.mu.Lock()
+							e.idp.accessTokenPad = ""
+							e.idp.mu.Unlock()
+							if v == nil {
+								continue
+							}
+							if v.raw != nil {
+								b.apply(v.raw)
+							}
+							r3 := e.do(reqSpec{Target: "/app/after", Cookie: b.cookieHeader()})
+							c.casen(fmt.Sprintf("c11r|%v|%s", redis, layout), layout+" => "+real)
+							c.count("signout:refresh-at-signout")
+							if len(r3.Hits) > 0 || hasAnySessionCookie(b, e.opts.Cookie.Name) {
+								c.violation("C11", "browser still holds / is authenticated by session cookies after a sign-out whose request refreshed the session", map[string]interface{}{
+									"redis": redis, "layout": layout, "cookies_before": before, "jar_after": jarNamesOf(b), "response": real})
+							}
+							if e.mr != nil {
+								e.mr.FlushAll()
+							}
+						}
+					}
 					// a sign-out that cannot remove the stored session is an error, not the redirect
 					if redis {
 						b := newBrowser()
@@ -374,7 +436,7 @@ func init() {
 				}
 			}
 		}
-		c.close([]string{"serve:signout", "signout:replay", "signout:del-fault", "signout:parts-1"})
+		c.close([]string{"serve:signout", "signout:replay", "signout:del-fault", "signout:parts-1", "signout:refresh-at-signout"})
 	})
 
 	registerSuite("cookieattrs", func(c *suiteCtx) {
